@@ -208,10 +208,57 @@ class PList:
         return "[" + ", ".join(parts) + "]"
 
 
+@dataclass
+class PAs:
+    pat: object
+    name: str
+
+    def show(self):
+        return f"{self.pat.show()} as {self.name}"
+
+
+@dataclass
+class PBytes:
+    bs: bytes
+
+    def show(self):
+        return '#"' + self.bs.hex() + '"'
+
+
+@dataclass
+class PRec:
+    """record pattern `Ctor { label: pat, label, .. }`; fields: [(label, pattern | None)] (None: punned variable)"""
+    name: str
+    fields: list
+    spread: bool = False
+
+    def show(self):
+        parts = [l if sp is None else f"{l}: {sp.show()}" for l, sp in self.fields]
+        if self.spread:
+            parts.append("..")
+        return f"{self.name} {{ " + ", ".join(parts) + " }"
+
+
 def match(p, t, v, binds: dict):
     """z3 Bool: value v of type t matches pattern p; fills binds name -> (type, value)"""
     if isinstance(p, PDiscard):
         return z3.BoolVal(True)
+    if isinstance(p, PAs):
+        binds[p.name] = (t, v)
+        return match(p.pat, t, v, binds)
+    if isinstance(p, PBytes):
+        return v == V.bytes_z(p.bs)
+    if isinstance(p, PRec):
+        decl = ADTS[t[1]]
+        idx = [c.name for c in decl.ctors].index(p.name)
+        labels = [l for l, _ in decl.ctors[idx].fields]
+        fts = [ft for _, ft in decl.ctors[idx].fields]
+        fields = Data.cfields(v)
+        conds = [Data.ctag(v) == idx]
+        for l, sp in p.fields:
+            i = labels.index(l)
+            conds.append(match(sp if sp is not None else PVar(l), fts[i], from_data(fts[i], dl_nth(fields, i)), binds))
+        return z3.And(conds)
     if isinstance(p, PVar):
         binds[p.name] = (t, v)
         return z3.BoolVal(True)
@@ -351,6 +398,13 @@ def show(e: E, ind=1) -> str:
 def pat_binders(p) -> set:
     if isinstance(p, PVar):
         return {p.name}
+    if isinstance(p, PAs):
+        return {p.name} | pat_binders(p.pat)
+    if isinstance(p, PRec):
+        out = set()
+        for l, sp in p.fields:
+            out |= {l} if sp is None else pat_binders(sp)
+        return out
     if isinstance(p, (PCtor, PTuple)):
         return set().union(*[pat_binders(a) for a in p.args]) if p.args else set()
     if isinstance(p, PList):
